@@ -64,7 +64,7 @@ func init() {
 					if !ok || (bigMethod(c) != "Sub" && bigMethod(c) != "Add") {
 						return
 					}
-					ts := be.At[c]
+					ts := be.at(c)
 					if len(ts) == 3 && ts[1].String() == tmul(tconst(4), tsym("arg#3")).String() {
 						got = bigMethod(c) + "(" + ts[1].String() + ", " + ts[2].String() + ")"
 						// the correction term depends on the sign parameter (arg#1)
@@ -179,7 +179,7 @@ func orderAgreementRule(P *Program, R *Report) {
 				if seq, ok := seqOf(c.Common().Args[0]); ok && seqString(seq) == "[(rangekey("+pdRP+"))*]" {
 					// the sort is executed on every path into the loop
 					call := c
-					r := (&MustPass{P: P, NoInterproc: true, Instr: func(_ *ssa.Function, i ssa.Instruction) bool { return i == ssa.Instruction(call.(*ssa.Call)) }}).MustReach(fn, outer.Header.Instrs[0])
+					r := (&MustPass{P: P, Instr: func(_ *ssa.Function, i ssa.Instruction) bool { return i == ssa.Instruction(call.(*ssa.Call)) }}).MustReach(fn, outer.Header.Instrs[0])
 					sorted = r.Holds
 				}
 			}
@@ -255,7 +255,7 @@ func sizeAgreementRule(P *Program, R *Report) {
 	// split values bounded by ld
 	memo := func(a Atom) bool { return desc(a.V) == rpS+".commitments" && a.Want == NonNil }
 	fa := &ForAll{P: P, Spec: ForAllSpec{Coll: func(d string) bool { return strings.HasSuffix(d, ".d") }, Exempt: memo, Body: func(f *ssa.Function, l *Loop) *MustPass {
-		return &MustPass{NoInterproc: true, Match: func(a Atom) bool {
+		return &MustPass{Match: func(a Atom) bool {
 			g, ok := parseGuard(a, nil)
 			if !ok || g.Kind != "bitlen" || !strings.HasSuffix(g.Subject, ".d[#i]") {
 				return false
@@ -267,7 +267,7 @@ func sizeAgreementRule(P *Program, R *Report) {
 	m := fa.inFn(fn, AcceptNilErr(2))
 	R.decide(rule, kRPCFS+":split-size", "commitments are produced only if every square root has at most ld bits", m.holds, m.detail, P.Pos(fn.Pos()))
 	// number of squares matches the structure
-	mp(P, R, rule, kRPCFS+":split-count", "commitments are produced only if the splitter returned as many roots as the structure has squares", fn, AcceptNilErr(2), &MustPass{NoInterproc: true, Exempt: memo, Match: func(a Atom) bool {
+	mp(P, R, rule, kRPCFS+":split-count", "commitments are produced only if the splitter returned as many roots as the structure has squares", fn, AcceptNilErr(2), &MustPass{Exempt: memo, Match: func(a Atom) bool {
 		g, ok := parseGuard(a, nil)
 		return ok && g.Kind == "int" && g.Rel == "==" && ((strings.HasSuffix(g.Subject, ".d)") && g.BoundA.String() == "len("+rpS+".cRep)") || (g.Subject == "len("+rpS+".cRep)" && strings.HasSuffix(g.BoundA.String(), ".d)")))
 	}})
@@ -311,7 +311,7 @@ func statementFilingRule(P *Program, R *Report) {
 	tail, _ := seqTail(app.Call.Args[1], 0, map[ssa.Value]bool{})
 	ok := len(tail) == 1 && tail[0].D == "call:rangeproof.(*Statement).ProofStructure(arg#2[*][#j],"+key+")#0"
 	R.decide(rule, kCredBuilder+":filed", "every statement's structure is built for, and filed under, the index the caller gave it", ok, seqString(tail), P.Pos(app.Pos()))
-	r := (&MustPass{P: P, NoInterproc: true, Match: func(a Atom) bool {
+	r := (&MustPass{P: P, Match: func(a Atom) bool {
 		c, okc := callAtom(a, True, "gabi.isUndisclosedAttribute")
 		return okc && desc(c.Call.Args[0]) == "arg#1" && desc(c.Call.Args[1]) == key
 	}}).MustReach(fn, app)
@@ -324,8 +324,7 @@ func statementFilingRule(P *Program, R *Report) {
 		R.decide(rule, "gabi.isUndisclosedAttribute:complement", "undisclosed = not contained in the disclosed list", okc, "", P.Pos(iu.Pos()))
 	}
 	// every statement is processed: loops over the map and the per-index slice, error => no builder
-	mp(P, R, rule, kCredBuilder+":structure-error", "a builder is returned only if every statement yielded a structure", fn, AcceptNilErr(1), &MustPass{NoInterproc: true,
-		Exempt: func(a Atom) bool {
+	mp(P, R, rule, kCredBuilder+":structure-error", "a builder is returned only if every statement yielded a structure", fn, AcceptNilErr(1), &MustPass{Exempt: func(a Atom) bool {
 			d := desc(a.V)
 			return (d == "arg#2" && a.Want == Nil) || (strings.HasPrefix(d, "rangeok(") && a.Want == False) || (strings.HasPrefix(d, "(#j<len(") && a.Want == False)
 		},
